@@ -240,7 +240,11 @@ std::string gen_comment(Rng &r, bool)
 	case 1:
 		return "//" + body + "\n";
 	case 2:
-		return "/*" + body + (r.chance(1, 3) ? "\n more " : "") + "*/";
+	{
+		// block comments may span lines, also completely empty ones, and may end right after a newline
+		static const char *tails[] = {"", "", "\n more ", "\n\n\n three lines down ", "\n", "\n\n", " *\n * boxed\n\n *", "\r\n\r\n"};
+		return "/*" + body + tails[r.below(8)] + "*/";
+	}
 	default:
 		return std::string(r.chance(1, 2) ? "##" : "///") + body + "\n";
 	}
